@@ -212,3 +212,32 @@ func VerifBuildDispatchRoutes(compiled config.Compiled) []dispatcher.RouteConfig
 func VerifMapEgressRules(rules []config.EgressRule) []dispatcher.EgressRule {
 	return mapEgressRules(rules)
 }
+
+// VerifLive is a runtime whose listeners were started by the real startServers (ingress, Pull API, Admin API on the
+// addresses the configuration names), so that the wiring of run() itself is what answers.
+type VerifLive struct {
+	*VerifRuntime
+	servers []shutdownServer
+}
+
+// VerifStartLive builds the runtime state and starts the servers as run() does.
+func VerifStartLive(compiled config.Compiled, store queue.Store) (*VerifLive, error) {
+	rt, err := VerifNewRuntime(compiled, nil)
+	if err != nil {
+		return nil, err
+	}
+	servers, err := startServers(store, compiled, rt.state, rt.logger, rt.logger, newRuntimeMetrics(), nil, nil, func() {})
+	if err != nil {
+		return nil, err
+	}
+	return &VerifLive{VerifRuntime: rt, servers: servers}, nil
+}
+
+// Stop shuts the listeners down.
+func (l *VerifLive) Stop() {
+	ctx, cancel := context.WithTimeout(context.Background(), 2*time.Second)
+	defer cancel()
+	for _, s := range l.servers {
+		_ = s.Shutdown(ctx)
+	}
+}
